@@ -21,6 +21,7 @@ type ingest struct {
 	// statistics
 	effects int
 	vc7     map[string]*Effect
+	k8use   int
 }
 
 func isNetMsg(t *Term) bool {
@@ -121,6 +122,7 @@ func runIngest(a *Analyzer, r *Results) {
 			j.res.Stats["ingest.paths"] = w.Paths
 			j.res.Stats["ingest.functions"] = len(w.Visited)
 			j.res.Stats["ingest.effects"] = ig.effects
+			j.res.Stats["k8use"] = ig.k8use
 		}(ji, j)
 	}
 	wg.Wait()
@@ -135,12 +137,17 @@ func runIngest(a *Analyzer, r *Results) {
 		r.Undecided = append(r.Undecided, j.res.Undecided...)
 		r.Stats["ingest.paths"] += j.res.Stats["ingest.paths"]
 		r.Stats["ingest.effects"] += j.res.Stats["ingest.effects"]
+		r.Stats["k8use"] += j.res.Stats["k8use"]
 		if j.res.Stats["ingest.functions"] > r.Stats["ingest.functions"] {
 			r.Stats["ingest.functions"] = j.res.Stats["ingest.functions"]
 		}
 		for k, v := range j.vc7 {
 			vc7[k] = v
 		}
+	}
+	if r.Stats["k8use"] == 0 {
+		// no method is invoked on a freshly requested block anywhere: the rule holds with nothing to guard
+		r.Check("K8.use", props("C15", "C16", "C12"), k8useText, "none", a.P.Pos(a.P.Func(idE3).Pos()), true, "", "A")
 	}
 	for _, id := range []string{idE1, idE2} {
 		fn := a.P.Func(id)
@@ -151,7 +158,7 @@ func runIngest(a *Analyzer, r *Results) {
 				continue
 			}
 			e := vc7[id+"|"+c.name]
-			o := &Obl{Rule: "VC7", Key: "VC7|" + short + "|interfaces.StoreViewChange|net", Props: props("C09", "C11", "C05"), Engine: "A",
+			o := &Obl{Rule: "VC7", Key: "VC7|" + short + "|interfaces.StoreViewChange|net", Props: props("C09", "C11", "C05", "C07"), Engine: "A",
 				Text: "a vote is stored only if it carries a block exactly when it carries a non-empty prepared proof (case split " + c.name + ": the store must be unreachable)", Entry: id}
 			if e == nil {
 				o.Status = "discharged"
@@ -186,6 +193,7 @@ func (ig *ingest) onEffect(e *Effect) {
 	ig.gates(e)
 	ig.roundRules(e)
 	ig.moreGates(e)
+	ig.r3Gates(e)
 	switch {
 	case e.Kind == "call" && e.Name == "rawmessagesfilter.HandleConsensusMessage":
 		ig.deliver(e)
@@ -226,7 +234,7 @@ func (ig *ingest) onEffect(e *Effect) {
 		if e.Config == "vc-proof-and-block" && storeKind[e.Name] == "VC" && isNetMsg(m) {
 			ev := a.NewEval(e, ig.r)
 			H := hdr(m)
-			ev.Require("VC8", props("C08", "C09", "C11"), "a vote carrying both a proof and a block is stored only if the block matches the proof's hash", "net",
+			ev.Require("VC8", props("C08", "C09", "C11", "C04", "C03"), "a vote carrying both a proof and a block is stored only if the block matches the proof's hash", "net",
 				Truth(Call("interfaces.ValidateBlockCommitment", k.BU, ht(H), blockOf(m), hash(Call("protocol.PreprepareBlockRef", proofOf(H))))))
 		}
 	case e.Kind == "store" && e.Name == "termincommittee.TermInCommittee.latestViewThatProcessedVCMOrNVM":
@@ -316,6 +324,7 @@ func (ig *ingest) cacheInsert(e *Effect) {
 	ev.Verdict("F2.key", props("C08", "C17"), "the cache key is the message's own height", "net", ev.Same(key, ht(H)), "key "+key.Key())
 	ev.Require("F5.newest", props("C17"), "only the newest future height is cached", "net", Le(Field(rmf, "latestFutureBlockHeight"), key))
 	ig.exactHeightFilter(ev, "F2.exact", H)
+	ig.cacheInsertExact(ev, key)
 }
 
 // exactHeightFilter: on the way to a delivery / cache insertion the message's height is compared with the current
@@ -528,7 +537,7 @@ func (ig *ingest) ingP(e *Effect, m *Term) {
 	ev.Require("P2", props("C08", "C11", "C10", safety), "a network PREPARE is stored only if its sender is a committee member", "net", k.Member(mid(S)))
 	ev.Require("P3", props("C08", "C11", "C10", safety), "a network PREPARE's signed header is typed PREPARE", "net", Eq(mtype(H), k.ProtoConst("LEAN_HELIX_PREPARE")))
 	ev.Require("P4", props("C08"), "a PREPARE from a view below the current one is ignored", "net", Le(k.SView, vw(H)))
-	ev.Require("P5", props("C08", "C11", "C05"), "a PREPARE from the leader of its view is ignored", "net", Ne(mid(S), k.LeaderOf(vw(H))))
+	ev.Require("P5", props("C08", "C11", "C05", "C09"), "a PREPARE from the leader of its view is ignored", "net", Ne(mid(S), k.LeaderOf(vw(H))))
 	ig.exactStaleness(ev, "L7.P", H, []string{Le(k.SView, vw(H)).Key()})
 }
 
@@ -787,7 +796,7 @@ func runProof(a *Analyzer, r *Results) {
 	verify := func(ref, s *Term) *Atom {
 		return ErrNil(Call("interfaces.VerifyConsensusMessage", km, ht(ref), raw(ref), s))
 	}
-	pr := props("C08", "C11", "C01", "C07")
+	pr := props("C08", "C11", "C01", "C07", "C04", "C09")
 	nTrue := 0
 	w := a.NewWalker(func(e *Effect) {
 		if e.Kind != "return" || len(e.Args) != 1 {
